@@ -2,8 +2,8 @@
    The admission rule is what the check applies to every observed planner run; these theorems say what an admitted
    run guarantees, that the library's own path check and status constructor mean what the rule assumes, and that the
    single-tree planner skeleton can only produce admissible reports — for every history of extension attempts. *)
-From Coq Require Import List ZArith Bool.
-From OmplV Require Import LedgerModel LedgerProofs MotionModel MotionProofs EitModel EitProofs RrtModel RrtProofs RrtConnectModel RrtConnectProofs LazyRrtModel LazyRrtProofs.
+From Coq Require Import List ZArith Bool Floats.
+From OmplV Require Import LedgerModel LedgerProofs MotionModel MotionProofs EitModel EitProofs RrtModel RrtProofs RrtConnectModel RrtConnectProofs LazyRrtModel LazyRrtProofs PdfModel EstModel EstProofs EstFloat.
 Import ListNotations.
 Local Open Scope Z_scope.
 
@@ -131,6 +131,30 @@ Theorem C01_rlrt_reports_only_real_paths :
   end.
 Proof. exact rlrt_solve_spec. Qed.
 
+(* geometric::EST (expansive space trees): the node to expand from is drawn from the PDF (PdfModel, inside the model), whose weights
+   addMotion maintains from neighbourhood counts; candidates come from sampleNear or the goal and may be dropped by the density test.
+   For every arithmetic of weights and distances, every validator, goal, variate tape and sampler: the same contract as RRT. *)
+Theorem C01_est_reports_only_real_paths :
+  forall (A : PdfModel.arith) (one : PdfModel.T A) (div : PdfModel.T A -> PdfModel.T A -> PdfModel.T A) (leb : PdfModel.T A -> PdfModel.T A -> bool)
+         (ofnat : nat -> PdfModel.T A) (St : Type) (dist : St -> St -> PdfModel.T A) mv sat gdist (goal_state dflt : St) (radius goal_bias : PdfModel.T A),
+  (forall a b c, PdfModel.ltb A a b = true -> PdfModel.ltb A b c = true -> PdfModel.ltb A a c = true) -> (forall a, PdfModel.ltb A a a = false) ->
+  forall starts iters tape samples, starts <> [] ->
+  let res := fst (est_solve A one div leb ofnat St dist mv sat gdist goal_state dflt radius goal_bias starts iters tape samples) in
+  let tree := fst res in
+  (forall i s, nth_error tree i = Some (s, None) -> In s starts) /\
+  (forall i s p, nth_error tree i = Some (s, Some p) -> (p < i)%nat /\ exists ps pp, nth_error tree p = Some (ps, pp) /\ mv ps s = true) /\
+  match snd res with
+  | Some (path, approx, dd) =>
+      path <> [] /\ In (hd dflt path) starts /\ consecutive (fun a b => mv a b = true) path /\ dd = gdist (last path dflt) /\
+      (exists i, (length starts <= i < length tree)%nat /\ last path dflt = fst (nth i tree (dflt, None))) /\
+      (if approx then sat (last path dflt) = false /\
+                      forall j, (length starts <= j < length tree)%nat -> PdfModel.ltb A (gdist (fst (nth j tree (dflt, None)))) dd = false
+       else sat (last path dflt) = true)
+  | None => tree = map (fun x => (x, None)) starts
+  end.
+Proof. exact est_solve_spec. Qed.
+
+Print Assumptions C01_est_reports_only_real_paths.
 Print Assumptions C01_rlrt_reports_only_real_paths.
 Print Assumptions C01_lazyrrt_reports_only_validated_paths.
 Print Assumptions C01_rrtconnect_reports_only_real_paths.
@@ -200,3 +224,12 @@ Example C01_lazyrrt_nonvacuous :
   ls_sol _ _ (lazy_solve Z Z (fun a b => Z.abs (a - b)) Z.ltb zsteer3b zmv67b (fun s => (Z.abs (s - 5) <? 1)%Z) (fun s => Z.abs (s - 5)) 5%Z 0%Z [0%Z] [false; false] [3; 5]%Z)
   = Some ([0; 3; 5]%Z, 0%Z).
 Proof. vm_compute. split; reflexivity. Qed.
+
+(* EST on binary64: a run that selects through the PDF, has one sampleNear failure, one density rejection and one goal-biased candidate
+   blocked by the wall; the tree with parents, the report (approximate, difference, path) and the PDF weights 1/2, 1/2, 1, 1/3, 1 —
+   the library prints the same bits on this input *)
+Example C01_est_nonvacuous :
+  (EstFloat.est_float 3 0.25 0.5 6 [(5, -1, 1)] [(0, 0)] (10, 0) [0.5; 0.5; 0.125; 0.25; 0.875; 0.25; 0.5; 0.125; 0.25; 0.625; 0.75; 0.125; 0.5; 0.5; 0.5; 0.5]
+    [Some (1, 0.5); Some (2, 2); None; Some (0.5, 0.25); Some (3, 3); Some (4, 4)])%float
+  = [[0; 0; -1; 1; 0.5; 0; 2; 2; 0; 0.5; 0.25; 0; 3; 3; 0]; [1; 0x1.e768d399dc470p+2; 0; 0; 3; 3]; [0.5; 0.5; 1; 0x1.5555555555555p-2; 1]]%float.
+Proof. vm_compute. reflexivity. Qed.
